@@ -33,6 +33,9 @@ def run(ctx: Context) -> None:
     ctx.rule(r1_writers)
     v = CalibrateView(ctx.prog)
     ctx.rule(c02.r5_labels, v)
+    # one label per recorded sample: labels are written for batch_size samples, so sample() must hand back exactly batch_size rows (C12 shape rules)
+    from . import c12
+    ctx.rule(c12.sample_rules)
     ctx.rule(r3_persisted)
     ctx.rule(r3b_write_order)
     ctx.rule(r4_no_stale_cache)
